@@ -39,7 +39,7 @@ if [ $# -gt 0 ]; then
   git -C /verif checkout -- evidence; rm -f /verif/replays/*.json
 fi
 if [ "$suite" != fail ] && [ $dwith = fail ] && [ $dwithout = pass ]; then
-  round=""; case "$out" in *seed2*) round="r2";; *seed3*) round="r3";; *seed4*) round="r4";; *seed5*) round="r5";; esac
+  round=""; case "$out" in *seed2*) round="r2";; *seed3*) round="r3";; *seed4*) round="r4";; *seed5*) round="r5";; *seed6*) round="r6";; esac
   d=/verif/seeded/$prop-${round}m$k; mkdir -p $d
   cp $diff $d/patch.diff; cp $demo $d/demo_test.go
   python3 - "$meta" "$d/meta.json" "$suite" "[${results%,}]" "$(git -C /repo rev-parse --short HEAD)" <<'PY'
